@@ -55,13 +55,22 @@ pub fn run(sc: &Scenario, trace: bool) -> Outcome {
         .expect("runtime");
     let w: W = Arc::new(Mutex::new(World::new(sc, trace)));
     let t0 = rt.block_on(async { tokio::time::Instant::now() });
-    let virtual_ms = rt.block_on(async {
+    let main = async {
         let r = timeout(RUN_TIMEOUT, drive(w.clone(), sc)).await;
         if r.is_err() {
             w.lock().unwrap().harness_error("run exceeded the virtual-time cap".into());
         }
         t0.elapsed().as_millis() as u64
-    });
+    };
+    let migrates = sc.tasks.iter().any(|t| t.iter().any(|o| matches!(o, Op::Migrate)));
+    let virtual_ms = if !migrates {
+        rt.block_on(main)
+    } else {
+        let ctl = w.lock().unwrap().migrate.clone();
+        let (ms, phases) = simcore::phased::run_alternating(Box::pin(main), &|f| rt.block_on(f), &ctl.0, &ctl.1, &|| {}, &|| {});
+        *w.lock().unwrap().fired.entry("os_thread_migration".into()).or_insert(0) += phases - 1;
+        ms
+    };
     drop(rt); // cancels server / connection tasks still parked
     let mut g = w.lock().unwrap();
     let wd = &mut *g;
@@ -186,6 +195,17 @@ async fn exec(w: &W, pool: &Pool, tid: usize, i: usize, op: &Op, stmts: &mut Vec
             for _ in 0..*n {
                 tokio::task::yield_now().await;
             }
+            ret(&mut w.lock().unwrap(), tid, i, op, "done", String::new());
+            return;
+        }
+        Op::Migrate => {
+            let ctl = w.lock().unwrap().migrate.clone();
+            ctl.0.store(true, std::sync::atomic::Ordering::SeqCst);
+            let wk = ctl.1.lock().unwrap().clone();
+            if let Some(wk) = wk {
+                wk.wake_by_ref();
+            }
+            tokio::task::yield_now().await;
             ret(&mut w.lock().unwrap(), tid, i, op, "done", String::new());
             return;
         }
